@@ -51,6 +51,36 @@ def planted_input(rng: random.Random):
             else:
                 x += rng.randint(9000, 30000)
         dense = (d0, d1)
+    dup = None
+    if dense is None and not near_start and rng.random() < 0.35:
+        # a segmental duplication: region A (its first label in the middle of a 1400 bp seeding bin) and, far downstream,
+        # a slightly diverged copy B that starts on a bin boundary, every label displaced by 150-400 bp (towards the
+        # centre of the bin the molecule's label falls into, or in a random direction): B's coarse seed can outrank
+        # A's although only A carries the molecule's exact pattern
+        res1 = 1400
+        wa = rng.randint(20, 42)
+        d = rng.choice([150, 250, 400])
+        pattern = [0]
+        for _ in range(wa - 1):
+            pattern.append(pattern[-1] + 3000 + int(rng.expovariate(1 / 7000.)))
+        head = [rng.randint(5000, 30000)]
+        for _ in range(rng.randint(8, 30)):
+            head.append(head[-1] + 2500 + int(rng.expovariate(1 / 9000.)))
+        start_a = head[-1] + rng.randint(4000, 20000)
+        start_a += (res1 // 2 - start_a % res1) % res1
+        a0 = len(head)
+        xs = head + [start_a + v for v in pattern]
+        for _ in range(rng.randint(20, 60)):
+            xs.append(xs[-1] + 2500 + int(rng.expovariate(1 / 9000.)))
+        start_b = xs[-1] + rng.randint(4000, 20000)
+        start_b += -start_b % res1
+        central = rng.random() < 0.6
+        b0 = len(xs)
+        xs += [start_b + v + ((d if v % res1 < res1 // 2 else -d) if central else rng.choice([-d, d])) for v in pattern]
+        for _ in range(rng.randint(8, 30)):
+            xs.append(xs[-1] + 2500 + int(rng.expovariate(1 / 9000.)))
+        n = len(xs)
+        dup = (a0, wa, b0)
     while (xs[-1] - xs[0]) / (n - 1) < 9000:      # stretch the tail only, keeping every gap >= 2 kb
         xs = xs[:10] + [xs[9] + int((v - xs[9]) * 1.15) for v in xs[10:]]
     dx = pipecases.deci(xs, rng if rng.random() < 0.5 else None)
@@ -64,6 +94,10 @@ def planted_input(rng: random.Random):
         w0 = rng.choice([4, 4, 5, n - w - 4, rng.randint(4, n - w - 4), rng.randint(4, n - w - 4)])
         if dense:
             w0 = max(4, min(n - w - 4, rng.randint(dense[0] - 8, dense[1] - 10)))
+        if dup and len(qrys) < 6:       # the duplicated region (from its first label / a few labels in), or its copy
+            k = rng.choice([0, 0, 0, 1, 2, 3])
+            w0 = (dup[0] if len(qrys) % 3 != 2 else dup[2]) + k
+            w = rng.randint(max(15, dup[1] - k - 6), dup[1] - k)
         off = rng.choice([0, 7, 1234, 56789])
         tail = rng.choice([1, 15, 4000, 120000])
         rev = rng.random() < 0.5
